@@ -61,6 +61,16 @@ func (h *hist) liveness(maxCycles int) {
 		if ok {
 			break
 		}
+		if len(live) == 1 {
+			// a node that is alone makes progress by monologue (node.monologue: self-event while busy)
+			a := live[0]
+			if a.Core.Busy() {
+				a.Core.AddSelfEvent("")
+				a.Core.ProcessSigPool()
+				h.after(a, true)
+			}
+			continue
+		}
 		for _, a := range live {
 			for _, b := range live {
 				if a != b {
